@@ -70,15 +70,20 @@ type Ctx struct {
 	Shard   int
 	NShards int
 	Seed    int64
+	// Coop is true in a worker of the controlled-scheduler build (see Check.CoopWorkers).
+	Coop      bool
+	lastBegin atomic.Int64
 
-	res      Result
-	seen     map[uint64]struct{}
-	expired  atomic.Bool
-	journal  string
-	maxViol  int
-	check    *Check
-	vioSeen  map[string]int
-	curSpace string
+	res       Result
+	seen      map[uint64]struct{}
+	expired   atomic.Bool
+	journal   string
+	maxViol   int
+	check     *Check
+	vioSeen   map[string]int
+	curSpace  string
+	lastRepro func() map[string]any
+	skip      map[string]bool
 }
 
 // Check describes one property check.
@@ -103,6 +108,13 @@ type Check struct {
 	Extra func(merged *Result, coverage map[string]any)
 	// MemLimitMB limits each worker's address space (ulimit -v); 0 = 8192.
 	MemLimitMB int
+	// CoopWorkers > 0: that many additional workers are started from the executable "<self>-coop"
+	// (the same check built against the controlled-scheduler instrumentation); they run with
+	// ctx.Coop == true and shard among themselves.
+	CoopWorkers int
+	// HangSeconds > 0: a worker in which no case begins for that long (ctx.Begin is the heartbeat)
+	// exits with a HANG verdict for the journaled case.
+	HangSeconds int
 }
 
 func (c *Ctx) Quick() bool { return c.Tier == "quick" }
@@ -192,12 +204,26 @@ func (c *Ctx) Max(counter string, n int64) {
 func (c *Ctx) Unspecified(why string) { c.res.Unspecified[why]++ }
 
 // Begin journals the case about to be executed (only in journal mode, after a worker crash).
-func (c *Ctx) Begin(repro func() map[string]any) {
+//
+// It returns false if the case must be skipped: it killed this shard's worker in an earlier attempt
+// of this run (the orchestrator has recorded that as a verdict and restarts the shard without it).
+func (c *Ctx) Begin(repro func() map[string]any) bool {
+	c.lastBegin.Store(time.Now().UnixNano())
+	if len(c.skip) > 0 {
+		b, _ := json.Marshal(repro())
+		if c.skip[string(b)] {
+			return false
+		}
+	}
+	if c.check.HangSeconds > 0 {
+		c.lastRepro = repro
+	}
 	if c.journal == "" {
-		return
+		return true
 	}
 	b, _ := json.Marshal(map[string]any{"space": c.curSpace, "repro": repro()})
 	os.WriteFile(c.journal, b, 0644)
+	return true
 }
 
 // Journaling reports whether Begin records cases.
@@ -241,15 +267,15 @@ func (c *Ctx) Violate(what string, repro map[string]any, expected, got, finding 
 // ---------------------------------------------------------------------------------------------
 
 type knownFinding struct {
-	ID          string `json:"id"`
-	Property    string `json:"property"`
+	ID       string `json:"id"`
+	Property string `json:"property"`
 	// Properties lists further properties whose checks meet the same defect.
 	Properties  []string `json:"properties,omitempty"`
-	Status      string `json:"status"` // known | fixed
-	Signature   string `json:"signature"`
-	Witness     string `json:"witness"`
-	Description string `json:"description"`
-	Commit      string `json:"commit,omitempty"`
+	Status      string   `json:"status"` // known | fixed
+	Signature   string   `json:"signature"`
+	Witness     string   `json:"witness"`
+	Description string   `json:"description"`
+	Commit      string   `json:"commit,omitempty"`
 }
 
 func (k knownFinding) appliesTo(id string) bool {
@@ -300,6 +326,8 @@ func Main(check *Check) {
 	replay := flag.String("replay", "", "replay file")
 	nworkers := flag.Int("workers", 0, "number of worker processes")
 	budget := flag.Float64("budget", 0, "override enumeration budget in seconds")
+	coop := flag.Bool("coop", false, "worker of the controlled-scheduler build (internal)")
+	skipFile := flag.String("skip", "", "file with cases to skip, one JSON repro per line (internal)")
 	flag.Parse()
 	log.SetOutput(io.Discard)
 	seed, _ := strconv.ParseInt(envOr("VERIF_SEED", "0"), 10, 64)
@@ -310,7 +338,7 @@ func Main(check *Check) {
 	if *worker != "" {
 		var i, n int
 		fmt.Sscanf(*worker, "%d/%d", &i, &n)
-		runWorker(check, *tier, i, n, seed, *out, *journal, *deadline)
+		runWorker(check, *tier, i, n, seed, *out, *journal, *deadline, *coop, *skipFile)
 		return
 	}
 	os.Exit(orchestrate(check, *tier, seed, *nworkers, *budget))
@@ -329,9 +357,37 @@ func newCtx(check *Check, tier string, i, n int, seed int64) *Ctx {
 			FindingHits: map[string]int64{}, Unspecified: map[string]int64{}}}
 }
 
-func runWorker(check *Check, tier string, i, n int, seed int64, out, journal string, deadline float64) {
+func runWorker(check *Check, tier string, i, n int, seed int64, out, journal string, deadline float64, coop bool, skipFile string) {
 	ctx := newCtx(check, tier, i, n, seed)
 	ctx.journal = journal
+	ctx.Coop = coop
+	if skipFile != "" {
+		if b, err := os.ReadFile(skipFile); err == nil {
+			ctx.skip = map[string]bool{}
+			for _, l := range strings.Split(string(b), "\n") {
+				if l != "" {
+					ctx.skip[l] = true
+				}
+			}
+		}
+	}
+	if check.HangSeconds > 0 {
+		ctx.lastBegin.Store(time.Now().UnixNano())
+		go func() {
+			for {
+				time.Sleep(2 * time.Second)
+				if time.Since(time.Unix(0, ctx.lastBegin.Load())) > time.Duration(check.HangSeconds)*time.Second {
+					// the case that began last never finished: journal it and give up on this shard
+					if journal != "" && ctx.lastRepro != nil {
+						b, _ := json.Marshal(map[string]any{"space": ctx.curSpace, "repro": ctx.lastRepro()})
+						os.WriteFile(journal, b, 0644)
+					}
+					fmt.Fprintf(os.Stderr, "HANG: no case finished for %d s\n", check.HangSeconds)
+					os.Exit(7)
+				}
+			}
+		}()
+	}
 	if deadline > 0 {
 		time.AfterFunc(time.Duration(deadline*float64(time.Second)), func() { ctx.expired.Store(true) })
 	}
@@ -380,22 +436,38 @@ func orchestrate(check *Check, tier string, seed int64, nworkers int, budgetOver
 	defer os.RemoveAll(tmp)
 	self, _ := os.Executable()
 
-	results := make([]*Result, n)
-	crashes := make([]*Violation, n)
+	nc := check.CoopWorkers
+	coopExe := self + "-coop"
+	if nc > 0 {
+		if _, err := os.Stat(coopExe); err != nil {
+			fmt.Printf("BUILD-FAILED: %s is missing (cannot decide on this tree)\n", coopExe)
+			return 2
+		}
+	}
+	total := n + nc
+	results := make([]*Result, total)
 	var wg sync.WaitGroup
-	launch := func(i int, journal bool) (res *Result, exitErr error, jfile string) {
-		outFile := filepath.Join(tmp, fmt.Sprintf("res-%d.json", i))
+	launch := func(slot int, journal bool, skipFile string) (res *Result, exitErr error, jfile string) {
+		exe, shard, of, extra := self, slot, n, []string{}
+		if slot >= n {
+			exe, shard, of, extra = coopExe, slot-n, nc, []string{"--coop"}
+		}
+		outFile := filepath.Join(tmp, fmt.Sprintf("res-%d.json", slot))
 		os.Remove(outFile)
-		args := []string{"--tier", tier, "--worker", fmt.Sprintf("%d/%d", i, n), "--out", outFile, "--deadline", fmt.Sprintf("%f", budget.Seconds())}
+		args := append([]string{"--tier", tier, "--worker", fmt.Sprintf("%d/%d", shard, of), "--out", outFile, "--deadline", fmt.Sprintf("%f", budget.Seconds())}, extra...)
 		if journal {
-			jfile = filepath.Join(tmp, fmt.Sprintf("journal-%d.json", i))
+			jfile = filepath.Join(tmp, fmt.Sprintf("journal-%d.json", slot))
+			os.Remove(jfile)
 			args = append(args, "--journal", jfile)
+		}
+		if _, err := os.Stat(skipFile); err == nil {
+			args = append(args, "--skip", skipFile)
 		}
 		// ulimit -v protects the sandbox from a runaway evaluation; output of the library under test
 		// (log.Print, one stray fmt.Println) goes to a per-worker log file.
 		sh := fmt.Sprintf("ulimit -v %d; exec \"$0\" \"$@\"", mem*1024)
-		cmd := exec.Command("bash", append([]string{"-c", sh, self}, args...)...)
-		lf, _ := os.Create(filepath.Join(tmp, fmt.Sprintf("log-%d.txt", i)))
+		cmd := exec.Command("bash", append([]string{"-c", sh, exe}, args...)...)
+		lf, _ := os.Create(filepath.Join(tmp, fmt.Sprintf("log-%d.txt", slot)))
 		cmd.Stdout, cmd.Stderr = lf, lf
 		cmd.Env = append(os.Environ(), "GOMAXPROCS=2", fmt.Sprintf("VERIF_SEED=%d", seed))
 		exitErr = cmd.Run()
@@ -409,36 +481,52 @@ func orchestrate(check *Check, tier string, seed int64, nworkers int, budgetOver
 		}
 		return
 	}
-	for i := 0; i < n; i++ {
+	crashList := make([][]*Violation, total)
+	for i := 0; i < total; i++ {
 		wg.Add(1)
 		go func(i int) {
 			defer wg.Done()
-			res, err, _ := launch(i, false)
-			if res != nil {
-				results[i] = res
-				return
+			skipFile := filepath.Join(tmp, fmt.Sprintf("skip-%d.txt", i))
+			for attempt := 0; attempt < 6; attempt++ {
+				res, err, _ := launch(i, false, skipFile)
+				if res != nil {
+					results[i] = res
+					return
+				}
+				// crashed: re-run in journal mode to pinpoint the case
+				res, err2, jf := launch(i, true, skipFile)
+				if res != nil {
+					// not reproducible: report as a crash without a case
+					results[i] = res
+					crashList[i] = append(crashList[i], &Violation{Property: check.ID, Space: "?", What: fmt.Sprintf("worker crashed (%v) but the re-run in journal mode completed", err),
+						Repro: map[string]any{"log": tailFile(filepath.Join(tmp, fmt.Sprintf("log-%d.txt", i)))}})
+					return
+				}
+				var j struct {
+					Space string         `json:"space"`
+					Repro map[string]any `json:"repro"`
+				}
+				b, _ := os.ReadFile(jf)
+				json.Unmarshal(b, &j)
+				what := fmt.Sprintf("worker process died (%v) while executing this case", err2)
+				if ee, ok := err2.(*exec.ExitError); ok && ee.ExitCode() == 7 {
+					what = fmt.Sprintf("worker hung: this case did not finish within %d s", check.HangSeconds)
+				}
+				v := &Violation{Property: check.ID, Space: j.Space, What: what, Repro: j.Repro,
+					Got: tailFile(filepath.Join(tmp, fmt.Sprintf("log-%d.txt", i)))}
+				if check.ClassifyCrash != nil && j.Repro != nil {
+					v.Finding = check.ClassifyCrash(j.Repro)
+				}
+				crashList[i] = append(crashList[i], v)
+				if j.Repro == nil {
+					return
+				}
+				// restart the shard without the case that killed it
+				rb, _ := json.Marshal(j.Repro)
+				fh, _ := os.OpenFile(skipFile, os.O_APPEND|os.O_CREATE|os.O_WRONLY, 0644)
+				fh.Write(append(rb, '\n'))
+				fh.Close()
 			}
-			// crashed: re-run in journal mode to pinpoint the case
-			res, err2, jf := launch(i, true)
-			if res != nil {
-				// not reproducible: report as a crash without a case
-				results[i] = res
-				crashes[i] = &Violation{Property: check.ID, Space: "?", What: fmt.Sprintf("worker crashed (%v) but the re-run in journal mode completed", err),
-					Repro: map[string]any{"log": tailFile(filepath.Join(tmp, fmt.Sprintf("log-%d.txt", i)))}}
-				return
-			}
-			var j struct {
-				Space string         `json:"space"`
-				Repro map[string]any `json:"repro"`
-			}
-			b, _ := os.ReadFile(jf)
-			json.Unmarshal(b, &j)
-			v := &Violation{Property: check.ID, Space: j.Space, What: fmt.Sprintf("worker process died (%v) while executing this case", err2), Repro: j.Repro,
-				Got: tailFile(filepath.Join(tmp, fmt.Sprintf("log-%d.txt", i)))}
-			if check.ClassifyCrash != nil && j.Repro != nil {
-				v.Finding = check.ClassifyCrash(j.Repro)
-			}
-			crashes[i] = v
 		}(i)
 	}
 	wg.Wait()
@@ -448,7 +536,7 @@ func orchestrate(check *Check, tier string, seed int64, nworkers int, budgetOver
 	var viol []Violation
 	infra := false
 	for i, r := range results {
-		if c := crashes[i]; c != nil {
+		for _, c := range crashList[i] {
 			if check.CrashIsViolation {
 				viol = append(viol, *c)
 				merged.NViolations++
@@ -570,6 +658,7 @@ func orchestrate(check *Check, tier string, seed int64, nworkers int, budgetOver
 		"spaces":              merged.Spaces,
 		"distinct_outcomes":   len(merged.Outcomes),
 		"workers":             n,
+		"coop_workers":        nc,
 		"budget_s":            budget.Seconds(),
 	}
 	if len(merged.Outcomes) <= 40 {
